@@ -766,7 +766,7 @@ func (s *c07State) scan(enc string, k c07Case) {
 	}
 }
 
-var c07ValidContig = regexp.MustCompile(`(?m)^CONTIG +join\([^:()\n]+:[0-9]+\.\.[0-9]+\)`)
+var c07ValidContig = regexp.MustCompile(`(?m)^CONTIG +join\([^:\n]*:[-+]?[0-9]+\.\.[-+]?[0-9]+\)`)
 
 // judgeRecord is the consistency clause for one yielded GenBank record.
 func (s *c07State) judgeRecord(enc string, k c07Case, i int, y c07Yield, text []byte) {
@@ -1270,8 +1270,10 @@ func (m c07) Run(c *fw.Ctx) {
 
 // scaling is the bounded-progress form of "time proportional to the input"
 // for constructs whose size can grow inside one record: the same construct is
-// scanned at size n and 4n (both <= 64 KiB); a CPU time that grows more than
-// 12-fold while the larger run needs more than 0.25 CPU-seconds is reported.
+// scanned at size n and 8n; a CPU time at 8n that exceeds eight times the CPU
+// time at n by more than 0.25 CPU-seconds and by more than a factor 2.5 is
+// reported (a quadratic term that is still small next to a large linear one
+// at n shows as such an excess at 8n).
 // (Quadratic behaviour that already exists on the unchanged tree - joins of
 // thousands of parts - is reported as evidence by the slow-case notes, and is
 // not part of these probes.)
@@ -1321,7 +1323,7 @@ func (s *c07State) scaling() {
 		{"records of a stream", func(n int) string {
 			return strings.Repeat(fmt.Sprintf(head, 4)+"ORIGIN      \n        1 acgt\n//\n", n)
 		}, 150, ""},
-		{"FASTA lines", func(n int) string { return ">f\n" + strings.Repeat("acgtacgtacgtacgtacgt\n", n) }, 750, ""},
+		{"FASTA lines", func(n int) string { return ">f\n" + strings.Repeat("acgtacgtacgtacgtacgt\n", n) }, 3000, ""},
 		{"DBLINK lines", func(n int) string {
 			return fmt.Sprintf(head, 4) + "DBLINK      A: b\n" + strings.Repeat("            A: b\n", n) + "ORIGIN      \n        1 acgt\n//\n"
 		}, 900, ""},
@@ -1350,6 +1352,27 @@ func (s *c07State) scaling() {
 		{"features of a feature table", func(n int) string {
 			return strings.Repeat("gene            1..4\n                /note=\"x\"\n", n)
 		}, 250, "table"},
+	}
+	origin := func(n int) string {
+		var b strings.Builder
+		fmt.Fprintf(&b, head, 60*n)
+		b.WriteString("ORIGIN      \n")
+		for i := 0; i < n; i++ {
+			fmt.Fprintf(&b, "%9d acgtacgtac gtacgtacgt acgtacgtac gtacgtacgt acgtacgtac gtacgtacgt\n", 60*i+1)
+		}
+		b.WriteString("//\n")
+		return b.String()
+	}
+	probes = append(probes,
+		probe{"ORIGIN lines", origin, 700, ""},
+		probe{"ORIGIN lines of a record that is not the first", func(n int) string { return origin(1) + origin(n) }, 700, ""})
+	// the same constructs with CRLF line ends.
+	for _, p := range append([]probe{}, probes...) {
+		if p.entry != "" || strings.Contains(p.name, "location") {
+			continue
+		}
+		build := p.build
+		probes = append(probes, probe{p.name + " (CRLF)", func(n int) string { return strings.ReplaceAll(build(n), "\n", "\r\n") }, p.n, ""})
 	}
 	scanCPU := func(entry, text string) (float64, int) {
 		best := -1.0
@@ -1397,8 +1420,10 @@ func (s *c07State) scaling() {
 			continue
 		}
 		c.Note(fmt.Sprintf("scaling %s: %.3f CPU-s at n, %.3f CPU-s at 8n (%d read)", p.name, t1, t4, r4))
-		if t4 > 0.25 && t4 > 24*math.Max(t1, 0.002) {
-			c.Violate("superlinear-time:"+strings.NewReplacer(" ", "-", "(", "", ")", "").Replace(p.name), enc, "CPU time within 24x when the input grows 8x (or under 0.25 CPU-s)", fmt.Sprintf("%.3f CPU-s -> %.3f CPU-s", t1, t4))
+		// what linear scaling predicts for 8n, and the excess over it.
+		lin := 8 * math.Max(t1, 0.002)
+		if t4-lin > 0.25 && t4 > 2.5*lin {
+			c.Violate("superlinear-time:"+strings.NewReplacer(" ", "-", "(", "", ")", "").Replace(p.name), enc, "CPU time at 8n within 2.5x of eight times the CPU time at n (or an excess under 0.25 CPU-s)", fmt.Sprintf("%.3f CPU-s -> %.3f CPU-s", t1, t4))
 		}
 	}
 }
